@@ -597,7 +597,7 @@ func execC16Vx(n int, i int, pat string, seed uint64, kind string, a int, mode i
 		if len(pf) > 0 {
 			pf[an%len(pf)] = leaf
 		}
-	case "idx":
+	case "idx", "idxpad":
 		idx = a
 	case "droplast":
 		if len(pf) > 0 {
@@ -914,7 +914,11 @@ func genC16(g *gen) {
 								if j < 0 {
 									s = fmt.Sprintf("-%x", -j)
 								}
-								g.emit("C16 vx %x %x %s %x idx %s", n, i, pat, seed, s)
+								kd := "idx"
+								if j >= n && j < pow {
+									kd = "idxpad" // a padding position: verifies with the zero leaf (recorded known finding); every OTHER wrongly accepted index must stay an alarm
+								}
+								g.emit("C16 vx %x %x %s %x %s %s", n, i, pat, seed, kd, s)
 							}
 						}
 					case "sib", "sibleaf", "leafother":
